@@ -128,19 +128,33 @@ class Check:
         print(f'VIOLATION property={s.pid} replay={path}', flush=True)
         print(f'  {what}: {json.dumps(case, default=str)[:600]}', flush=True)
         return None
-    def decide(s, name, eng, ctx, goal, case_fn, what=None, roles=None, role_excl=None, vary=(), tries=6, delta=1e-3):
+    def decide(s, name, eng, ctx, goal, case_fn, what=None, roles=None, role_excl=None, vary=(), tries=6, delta=1e-3, abstract=False, nomodel_case=None):
         """prove (ctx => not goal). On sat: replay; known roles are excluded and the query repeated; a counterexample that
         does not reproduce natively (typically a model sitting exactly on a floating-point decision boundary) is blocked with a
-        neighbourhood of radius delta in the `vary` variables and the query repeated. Returns 'unsat' | 'sat' | 'unknown' | 'noreplay'."""
+        neighbourhood of radius delta in the `vary` variables and the query repeated. Returns 'unsat' | 'sat' | 'unknown' | 'noreplay'.
+        abstract=True: first try the LINEAR ABSTRACTION of the query (every non-linear subterm replaced by a fresh constant, linear side
+        constraints only) - its unsat implies unsat of the real query (slicing, DESIGN 3.6). nomodel_case: a native search case to run when
+        the solver cannot produce a model (structural obligations over oracles): only a natively reproduced failure becomes a VIOLATION."""
+        if abstract:
+            res, _ = s.query(name + ' [linear abstraction]', None, *eng.side_lin, *[eng.linearize(zb(x)) for x in list(ctx) + [goal] if x is not True])
+            if res == 'unsat': return 'unsat'
         excl, blocked, nore = [], [], 0
         for attempt in range(tries):
             tag = (' (known roles excluded)' if excl else '') + (f' (retry {nore})' if nore else '')
-            res, m = s.prove(name + tag, eng, *ctx, goal, *excl, *blocked)
-            if res != 'sat':
-                if res == 'unsat' and nore:
+            res, m = s.query(name + tag, eng, *ctx, goal, *excl, *blocked, timeout=(3000 if (abstract and nomodel_case is not None) else None))
+            if res == 'unsat':
+                if nore:
                     s.inconclusive.append(f'{name}: {nore} solver counterexample(s) did not reproduce natively and the rest of the space is proved; last: {s.last_noreplay}')
                     return 'noreplay'
                 return res
+            if res == 'unknown':
+                if nomodel_case is not None:
+                    role = s.report(what or (name + ' fails'), nomodel_case(), roles, soft=True)
+                    if role == '__noreplay__':
+                        s.inconclusive.append(f'{name}: not proved (solver unknown) and the native search found no failing input: {s.last_noreplay}'); return 'unknown'
+                    if role is not None and role_excl and role in role_excl: excl.append(role_excl[role]); continue
+                    return 'sat'
+                s.inconclusive.append(f'solver unknown/timeout on {name}'); return res
             role = s.report(what or (name + ' fails'), case_fn(m), roles, soft=True)
             if role == '__noreplay__':
                 nore += 1
@@ -151,6 +165,28 @@ class Check:
             return 'sat'
         if nore: s.inconclusive.append(f'{name}: solver counterexamples did not reproduce natively ({nore} tried); last: {s.last_noreplay}')
         return 'noreplay'
+    # ---- parallel sub-checks ----
+    def parallel(s, jobs, nproc=None):
+        """jobs: list of (module_name, function_name, args); each runs fn(sub_check, *args) in a forked worker with its own engines/solver;
+        the workers' accounting is merged into this check. Results do not depend on scheduling (jobs are independent obligations)."""
+        import multiprocessing as mp
+        if not jobs: return
+        nproc = nproc or min(int(os.environ.get('VERIF_JOBS', '12')), len(jobs))
+        payload = [(m, f, a, s.pid, s.tier, s.seed, i) for i, (m, f, a) in enumerate(jobs)]
+        if nproc <= 1: outs = [_worker(p) for p in payload]
+        else:
+            with mp.get_context('fork').Pool(nproc) as pool: outs = pool.map(_worker, payload, chunksize=1)
+        for o in outs:
+            s.queries += o['queries']; s.solver_s += o['solver_s']; s.violations += o['violations']; s.inconclusive += o['inconclusive']
+            for k in o['known_hits']:
+                if k not in s.known_hits: s.known_hits.append(k)
+            s.samples += o['samples'][:2] if len(s.samples) < 12 else []
+            s.notes += o['notes']; s.states += o['states']; s.transitions += o['transitions']; s.validated += o['validated']; s.replay_cases += o['replay_cases']
+            for k, v in o['functions'].items(): s.functions[k] = s.functions.get(k, 0) + v
+            for k, v in o['models_used'].items(): s.models_used[k] = s.models_used.get(k, 0) + v
+            s.mirinfo = o['mirinfo'] or s.mirinfo
+            for a in o['assumptions']:
+                if a not in s.assumptions: s.assumptions.append(a)
     # ---- finish ----
     def finish(s):
         for e in getattr(s, '_engines', []): s.absorb(e)
@@ -175,6 +211,23 @@ class Check:
         if s.violations: return 1
         if s.inconclusive: return 2
         return 0
+
+def _worker(p):
+    import importlib
+    m, f, a, pid, tier, seed, idx = p
+    ck = Check(pid, tier, seed); ck.rng = random.Random(seed * 7919 + int(pid[1:]) + 1000 * (idx + 1))
+    t0 = time.time()
+    try:
+        getattr(importlib.import_module(m), f)(ck, *a)
+        ck.notes.append(f'job {f}{a}: {time.time() - t0:.1f}s')
+    except Inconclusive as e:
+        ck.inconclusive.append(f'{f}{a}: Inconclusive: {e}')
+    except Exception as e:
+        traceback.print_exc(); ck.inconclusive.append(f'{f}{a}: internal error {type(e).__name__}: {e}')
+    for e in getattr(ck, '_engines', []): ck.absorb(e)
+    return dict(queries=ck.queries, solver_s=ck.solver_s, violations=ck.violations, inconclusive=ck.inconclusive, known_hits=ck.known_hits, samples=ck.samples,
+                notes=ck.notes, states=ck.states, transitions=ck.transitions, validated=ck.validated, replay_cases=ck.replay_cases, functions=ck.functions,
+                models_used=ck.models_used, mirinfo=ck.mirinfo, assumptions=ck.assumptions)
 
 def fmt_arg(v):
     if isinstance(v, (list, tuple)): return ','.join(fmt_arg(x) for x in v)
